@@ -204,6 +204,22 @@ def _build(m, routes, perm, backend, as_ode, container, pool):
             else:
                 later.append((r, obj))
                 o_later.append(ei)
+    if pool is not None:
+        # a second model built from the same pool is handed the very same LIST objects as the first one (the user's own
+        # `events = [...]` passed to two constructors), not just the same elements
+        kept = pool.setdefault("lists", {})
+        for nm_ in ("event", "trans", "bd"):
+            cur = {"event": ctor_event, "trans": ctor_trans, "bd": ctor_bd}[nm_]
+            prev = kept.get(nm_)
+            if prev is not None and cur and len(prev) >= len(cur) and all(a is b for a, b in zip(prev, cur)):
+                if nm_ == "event":
+                    ctor_event = prev
+                elif nm_ == "trans":
+                    ctor_trans = prev
+                else:
+                    ctor_bd = prev
+            else:
+                kept[nm_] = cur
     model = SimulateOde(state_argument(m, objs), param_argument(m), derived_param=derived,
                         event=_container(ctor_event, container, False), transition=_container(ctor_trans, container, False),
                         birth_death=_container(ctor_bd, container, "bd"), ode=_container(odes, container, "ode"))
